@@ -44,6 +44,52 @@ def rule_mapfree(F):
     return res
 
 
+SHARE_OBSERVERS = [
+    (r"(rc::Rc|sync::Arc)::<[^>]*>::(ptr_eq|strong_count|weak_count|get_mut|try_unwrap|into_inner|is_unique|as_ptr|downgrade|into_raw)$", "rc-identity"),
+    (r"(^|::)ptr::(eq|addr_eq|fn_addr_eq)$", "pointer-identity"),
+    (r"(rc|sync)::Weak::<[^>]*>::(upgrade|ptr_eq|strong_count)$", "rc-identity"),
+]
+SHARE_TRANSPARENT = r"rc::Rc::<[^>]*>::(make_mut|unwrap_or_clone)$"
+SHARE_EXEMPT_IMPLS = r" as std::cmp::(PartialEq|Eq|PartialOrd|Ord)(<[^>]*>)?>::"
+
+
+def rule_share(F):
+    """M-SHARE: what a container operation does never depends on whether a node is shared with a clone.
+
+    Nodes are reference counted and clones share them; the persistence clause (and the agreement with a reference map for
+    *arbitrary* merge/filter callbacks) holds only if sharing is unobservable.  The two operations the code uses,
+    Rc::make_mut and Rc::unwrap_or_clone, return the same value whether or not the node is shared.  Every operation whose
+    *result* depends on identity or on the reference count (ptr_eq, strong_count, get_mut, try_unwrap, ptr::eq, ...) is
+    forbidden in every body of the crate, except inside comparison impls, where identity implies equality."""
+    res = RuleResult("M-SHARE")
+    transparent = 0
+    for p in sorted(F.bodies):
+        b = F.bodies[p]
+        sp = short(p).split("::{closure#")[0]
+        for bb, t in b.calls():
+            c = callee(t)
+            raw = t.get("raw") or ""
+            if re.search(SHARE_TRANSPARENT, c) or re.search(SHARE_TRANSPARENT, raw):
+                transparent += 1
+                res.ok()
+                continue
+            for pat, cls in SHARE_OBSERVERS:
+                if re.search(pat, c) or re.search(pat, raw):
+                    if re.search(SHARE_EXEMPT_IMPLS, p):
+                        res.ok()
+                        res.notes.append("%s uses %s inside a comparison impl (identity implies equality)" % (p, short(c)))
+                    else:
+                        op = c.rsplit("::", 1)[-1]
+                        res.bad("M-SHARE:%s:%s" % (sp, op), b.where(bb),
+                                "%s calls %s: its outcome depends on whether the node is shared with a clone (%s)" % (p, short(c), cls))
+                    break
+    if transparent == 0:
+        raise AnchorError("M-SHARE: no Rc::make_mut / Rc::unwrap_or_clone call seen in the runtime crate: the detector does not see Rc operations")
+    res.counts["transparent_rc_operations"] = transparent
+    res.sample({"bodies_scanned": len(F.bodies), "transparent_rc_operations": transparent, "observers": [x[0] for x in SHARE_OBSERVERS]})
+    return res
+
+
 def rule_freeze(F):
     """M-FREEZE: no runtime container type has interior mutability."""
     res = RuleResult("M-FREEZE")
